@@ -188,6 +188,9 @@ _MAP0 = dict(MIME_SUPPORT_MAP)          # the four formats, as imported
 
 
 def _check_negotiation(code_i, choice, which, pre_i=0):
+    if dict(MIME_SUPPORT_MAP) != _MAP0:
+        MIME_SUPPORT_MAP.clear()          # whatever an earlier case left behind: every case starts from the imported table
+        MIME_SUPPORT_MAP.update(_MAP0)
     cls = ERROR_CODE_MAP[CODES[code_i]]
     e = cls()
     if pre_i in (1, 2, 3, 4):
